@@ -159,7 +159,7 @@ func init() {
 			"0..5 skipped blocks (0 and n) in every pattern, and runs of 6..100 skipped blocks, before the first usable one; read granularities 1,7,31,32,33, whole request, zero-length reads without error, mixed scripts; " +
 			"failures at byte 0,1,31,32,33,63,64,.. and after k skipped blocks, delivered either as a separate failing read or together with the last bytes; receiver pre-loaded with a known value. " +
 			"Oracle: the first block whose value mod n is non-zero, reduced mod n (math/big); result must be in [1,n-1] with stored limbs < n; if the source fails before such a block is complete, Random must panic. " +
-			"Concurrent runs: 2..16 goroutines call Random simultaneously on scalars they own while the source serves every read a fresh unique block and yields the processor just before returning: every result must be a served block and none may repeat. non-trivial = stream with at least one skipped block, a block >= n, a non-trivial chunking or a failure; distinct by the whole case.",
+			"Single interrupted reads (an error wrapping EINTR / EAGAIN at every offset of the first two blocks, the source then carrying on): a panic or the correct first usable block of the whole stream are accepted, nothing else; after any panic the receiver may not hold zero or a non-canonical value. Concurrent runs: 2..16 goroutines call Random simultaneously on scalars they own while the source serves every read a fresh unique block and yields the processor just before returning: every result must be a served block and none may repeat. non-trivial = stream with at least one skipped block, a block >= n, a non-trivial chunking or a failure; distinct by the whole case.",
 		Assume:   []string{"concurrent runs: Random obtains entropy with reads whose sizes are multiples of 32 bytes (it uses io.ReadFull on a 32-byte buffer); the source serves a fresh unique block per 32 bytes of every read"},
 		NewCase:  func() any { return &c18Case{} },
 		Generate: c18Generate,
